@@ -180,7 +180,8 @@ class RollingAggregation(Blockwise):
 
     @functools.cached_property
     def _meta(self):
-        return self.frame._meta
+        # like RollingReduction: the aggregation decides on dtypes and labels
+        return make_meta(self.operation(self.frame._meta, *self.operands[1:]))
 
 
 class RollingCount(RollingReduction):
